@@ -32,9 +32,12 @@ func (r *Run) timingLedger(evs []verif.Event) (checked int) {
 	}
 	// REQ: i-th HCmd REQ of a connection <-> i-th KCmd REQ of its server-side client
 	type reqCmd struct {
-		id string
-		ts int64
+		id  string
+		ts  int64
+		arg string
 	}
+	reqms := map[string]int64{} // "k|id" -> requested ms of the REQ being executed (as the server parsed it)
+	sends := map[string][]verif.Event{}
 	sent := map[int64][]reqCmd{}
 	clamp := map[string]int64{} // "k|id" -> clamped delay of the REQ being executed
 	var waits []pend
@@ -49,25 +52,41 @@ func (r *Run) timingLedger(evs []verif.Event) (checked int) {
 			if hlib.KVStr(e, "cmd") == "REQ" {
 				k, ok := kOf[hlib.KVStr(e, "conn")]
 				if ok {
-					sent[k] = append(sent[k], reqCmd{hlib.KVStr(e, "id"), hlib.KVInt(e, "now")})
+					sent[k] = append(sent[k], reqCmd{hlib.KVStr(e, "id"), hlib.KVInt(e, "now"), hlib.KVStr(e, "arg")})
 				}
 			}
 		case "ReqClamp":
 			clamp[fmt.Sprintf("%d|%s", hlib.KVInt(e, "k"), hlib.KVStr(e, "id"))] = hlib.KVInt(e, "delay")
+			reqms[fmt.Sprintf("%d|%s", hlib.KVInt(e, "k"), hlib.KVStr(e, "id"))] = hlib.KVInt(e, "reqms")
+		case "Send":
+			sk := hlib.KVStr(e, "c") + "|" + hlib.KVStr(e, "id")
+			sends[sk] = append(sends[sk], e)
 		case "KCmd":
 			if hlib.KVStr(e, "cmd") != "REQ" {
 				continue
 			}
 			k := hlib.KVInt(e, "k")
-			if len(sent[k]) == 0 {
+			// pair this executed REQ with the client-side command it came from: same id and same number as the
+			// server parsed it (commands written to a connection that was already dead never reach the server)
+			key := fmt.Sprintf("%d|%s", k, hlib.KVStr(e, "arg"))
+			want, okm := reqms[key]
+			idx := -1
+			for i, c := range sent[k] {
+				if c.id == hlib.KVStr(e, "arg") && okm && c.arg == fmt.Sprint(want) {
+					idx = i
+					break
+				}
+			}
+			if idx < 0 {
 				continue
 			}
-			rc := sent[k][0]
-			sent[k] = sent[k][1:]
-			if hlib.KVStr(e, "err") != "" || rc.id != hlib.KVStr(e, "arg") {
+			rc := sent[k][idx]
+			sent[k] = sent[k][idx+1:]
+			delete(reqms, key)
+			if hlib.KVStr(e, "err") != "" {
 				continue
 			}
-			d, ok := clamp[fmt.Sprintf("%d|%s", k, rc.id)]
+			d, ok := clamp[key]
 			if !ok {
 				continue
 			}
@@ -104,8 +123,20 @@ func (r *Run) timingLedger(evs []verif.Event) (checked int) {
 		}
 	}
 	for _, w := range waits {
+		// the redelivery this REQ leads to: the first frame written for (channel, id) after the REQ was executed,
+		// identified by its attempts number; then the client-side receipt of exactly that frame
+		att := int64(-1)
+		for _, se := range sends[w.ch+"|"+w.id] {
+			if se.Seq > w.seq {
+				att = hlib.KVInt(se, "att")
+				break
+			}
+		}
+		if att < 0 {
+			continue
+		}
 		for _, e := range recv[rk{w.ch, w.id}] {
-			if e.Seq < w.seq {
+			if e.Seq < w.seq || hlib.KVInt(e, "att") != att {
 				continue
 			}
 			checked++
